@@ -1,65 +1,81 @@
-/* C20-O1a: ABTU_hashtable_{create,set,get,delete,free} -- every sequence of NOPS operations over NKEYS fully symbolic
- * int keys (negative, INT_MIN, colliding: all chosen by the solver) on a table of NENT buckets, against a ghost map. */
+/* C20-O1a: ABTU_hashtable_{create,set,get,delete,free}: a table of NENT buckets pre-filled (by the real set) with
+ * 0..3 entries under fully symbolic int keys (negative, INT_MIN, colliding: chosen by the solver), then ONE symbolic
+ * operation, then the whole map is read back and compared with a ghost map.
+ * Memory model: posix_memalign hands out typed, zero-initialised arena objects of exactly the requested size (cbmc's
+ * untyped malloc objects make this code explode); memset(0) on a fresh arena block is a checked no-op; memcpy is typed. */
 #include "abti.h"
 #include "vr.h"
-#include "util/hashtable.c"
-
-#ifndef NOPS
-#define NOPS 5
-#endif
+#include "stub_io.h"
 #ifndef NENT
 #define NENT 2
 #endif
-#define NKEYS 3
-#ifndef DSZ
 #define DSZ 8
-#endif
+struct elt { ABTU_hashtable_element e; uint64_t data; char pad[64 - sizeof(ABTU_hashtable_element) - 8]; };
+struct tab { ABTU_hashtable h; struct elt el[NENT]; char pad[64 - sizeof(ABTU_hashtable)]; }; /* ABTU_malloc rounds the size up to a cache-line multiple */
+static struct tab TAB; static int tab_used;
+static struct elt E0, E1; static int e_used[2], e_freed[2]; /* 3 keys => at most 2 chained elements */
+static struct elt *const EP[2] = { &E0, &E1 };
+int posix_memalign(void **p, size_t al, size_t sz)
+{
+    if (sz == sizeof(struct tab) && !tab_used) { tab_used = 1; *p = &TAB; return 0; }
+    __CPROVER_assert(sz == sizeof(struct elt), "allocation size is one 64-byte element");
+    for (int i = 0; i < 2; i++) if (!e_used[i]) { e_used[i] = 1; *p = EP[i]; return 0; }
+    __CPROVER_assert(0, "arena exhausted"); __CPROVER_assume(0); return 12;
+}
+void free(void *p)
+{
+    if (p == &TAB) { __CPROVER_assert(tab_used == 1, "table freed once"); tab_used = 2; return; }
+    for (int i = 0; i < 2; i++) if (p == EP[i]) { __CPROVER_assert(e_used[i] && !e_freed[i], "chain element freed exactly once"); e_freed[i] = 1; return; }
+    __CPROVER_assert(0, "free() of a pointer that was not allocated");
+}
+void *memset(void *d, int c, size_t n) { __CPROVER_assert(c == 0, "memset(0) only (fresh arena blocks are already zero)"); return d; }
+void *memcpy(void *d, const void *s, size_t n)
+{
+    if (n == 8) *(uint64_t *)d = *(const uint64_t *)s;
+    else if (n == sizeof(struct elt)) *(struct elt *)d = *(const struct elt *)s;
+    else __CPROVER_assert(0, "unexpected memcpy size");
+    return d;
+}
+#include "util/hashtable.c"
 
 int main(void)
 {
-    int key[NKEYS]; int present[NKEYS]; uint64_t val[NKEYS];
-    for (int i = 0; i < NKEYS; i++) { key[i] = nondet_int(); present[i] = 0; val[i] = 0; }
+    int key[3], present[3]; uint64_t val[3];
+    for (int i = 0; i < 3; i++) { key[i] = nondet_int(); val[i] = nondet_u64(); present[i] = 0; }
     VR_ASSUME(key[0] != key[1] && key[0] != key[2] && key[1] != key[2]);
     ABTU_hashtable *h = 0;
     int r = ABTU_hashtable_create(NENT, DSZ, &h);
-    VR_ASSERT(r == ABT_SUCCESS && h, "create succeeds");
-    int chained_delete_head = 0, overw = 0;
-    for (int n = 0; n < NOPS; n++) {
-        int op = nondet_int(), k = nondet_int();
-        VR_ASSUME(op >= 0 && op < 3 && k >= 0 && k < NKEYS);
-        if (op == 0) {
-            uint64_t d = nondet_u64(); int ow = -1;
-            r = ABTU_hashtable_set(h, key[k], &d, &ow);
-            VR_ASSERT(r == ABT_SUCCESS, "set succeeds");
-            VR_ASSERT(ow == present[k], "set: overwritten flag iff key was present");
-            if (ow) overw = 1;
-            present[k] = 1; val[k] = (DSZ == 8) ? d : (d & 0xffffffffu);
-        } else if (op == 1) {
-            uint64_t d = 0; int found = -1;
-            ABTU_hashtable_get(h, key[k], &d, &found);
-            VR_ASSERT(found == present[k], "get: found iff present");
-            if (found) VR_ASSERT(d == val[k], "get: returns last value set for this key");
-        } else {
-            int del = -1;
-            ABTU_hashtable_delete(h, key[k], &del);
-            VR_ASSERT(del == present[k], "delete: deleted flag iff present");
-            if (del && present[0] + present[1] + present[2] == 3) chained_delete_head = 1;
-            present[k] = 0;
-        }
-    }
-    /* final: the whole map agrees, a never-set key is absent */
-    for (int i = 0; i < NKEYS; i++) {
-        uint64_t d = 0; int found = -1;
-        ABTU_hashtable_get(h, key[i], &d, &found);
-        VR_ASSERT(found == present[i], "final: found iff present");
-        if (found) VR_ASSERT(d == val[i], "final: value preserved across other keys' operations");
-    }
-    int other = nondet_int(), f2 = -1;
-    VR_ASSUME(other != key[0] && other != key[1] && other != key[2]);
+    VR_ASSERT(r == ABT_SUCCESS && h == &TAB.h, "create succeeds");
+#ifdef NPRE
+    int n = NPRE;   /* shape mode: number of pre-inserted keys and the operated key slot are concrete, keys/values symbolic */
+#else
+    int n = nondet_int(); VR_ASSUME(n >= 0 && n <= 3);
+#endif
+    for (int i = 0; i < 3; i++) if (i < n) { int ow = -1; r = ABTU_hashtable_set(h, key[i], &val[i], &ow); VR_ASSERT(r == ABT_SUCCESS && ow == 0, "fresh key: set succeeds, not an overwrite"); present[i] = 1; }
+#ifdef KSLOT
+    int k = KSLOT;
+#else
+    int k = nondet_int(); VR_ASSUME(k >= 0 && k < 3);
+#endif
+#if OP == 0
+    { uint64_t d = nondet_u64(); int ow = present[k]; r = ABTU_hashtable_set(h, key[k], &d, NULL); VR_ASSERT(r == ABT_SUCCESS, "set succeeds"); if (ow && n == 3) VR_WITNESS("overwrite in a 3-entry table"); present[k] = 1; val[k] = d; }
+#elif OP == 1
+    { int del = present[k]; ABTU_hashtable_delete(h, key[k], NULL); /* the config objects pass NULL for the deleted flag; it is not observable */
+      if (del && n == 3 && k == 0) VR_WITNESS("deleted the first-inserted of 3"); if (del && n == 3 && k == 2) VR_WITNESS("deleted the last-inserted of 3"); if (del && n == 3 && k == 1) VR_WITNESS("deleted the middle of 3"); if (!del) VR_WITNESS("delete of absent key");
+      present[k] = 0; }
+#endif
+    for (int i = 0; i < 3; i++) { uint64_t d = 0; int f = -1; ABTU_hashtable_get(h, key[i], &d, &f); VR_ASSERT(f == present[i], "get: found iff present (no entry lost, none resurrected)"); if (f) VR_ASSERT(d == val[i], "get: last value set for this key"); }
+    int other = nondet_int(), f2 = -1; VR_ASSUME(other != key[0] && other != key[1] && other != key[2]);
     ABTU_hashtable_get(h, other, 0, &f2);
     VR_ASSERT(f2 == 0, "a key never set is not found");
-    if (chained_delete_head && overw) VR_WITNESS("delete from a full table after an overwrite");
-    if (key[0] < 0 && key[1] == -2147483647 - 1 && present[0] && present[1] && present[2]) VR_WITNESS("negative and INT_MIN keys stored together");
+#if OP == 2
+    if (key[0] < 0 && key[1] == -2147483647 - 1 && key[2] > 0) VR_WITNESS("negative, INT_MIN and positive keys looked up");
+#endif
+#if OP != 2
+    if (n == 3 && key[0] < 0 && key[1] == -2147483647 - 1 && ((long)key[0] - (long)key[2]) % NENT == 0) VR_WITNESS("negative, INT_MIN and colliding keys");
+#endif
     ABTU_hashtable_free(h);
+    VR_ASSERT(tab_used == 2, "table freed");
+    for (int i = 0; i < 2; i++) VR_ASSERT(!e_used[i] || e_freed[i], "every chain element released (no leak)");
     return 0;
 }
